@@ -254,7 +254,17 @@ func nickRun(e *Env) {
 			serverDone = true
 		})
 	}
-	c = NewClient(g.Knobs(ClientOpts{Nick: want, Flood: true, Track: track, NewNick: gen}))
+	// "the configured generator" is whatever Config().NewNick holds when a
+	// collision is answered: applications also install theirs once they have the
+	// client in hand
+	lateGen := gen != nil && g.Pct(40)
+	if lateGen {
+		c = NewClient(g.Knobs(ClientOpts{Nick: want, Flood: true, Track: track}))
+		c.Config().NewNick = gen
+		e.S.Count("probe.generator-installed-after-the-client-was-created")
+	} else {
+		c = NewClient(g.Knobs(ClientOpts{Nick: want, Flood: true, Track: track, NewNick: gen}))
+	}
 	discs := 0
 	c.HandleFunc(client.DISCONNECTED, func(*client.Conn, *client.Line) { discs++ })
 	if err := c.Connect(); err != nil {
@@ -1373,6 +1383,20 @@ func capRun(e *Env) {
 						fail("sasl-unacknowledged", "the server's latest acknowledgement took sasl away, yet the client answered AUTHENTICATE + with %q", extra)
 						return
 					}
+				}
+			}
+			if reply == 0 && len(inter) > 0 && g.S.Choose(4) == 0 {
+				// a later request of the application is refused: a NAK changes
+				// nothing on the server, so nothing about what is held either
+				cp := inter[g.S.Choose(len(inter))]
+				nak := []string{cp, "-" + cp, cp + " never-mentioned", strings.Join(inter, " ")}[g.S.Choose(4)]
+				e.S.Count("probe.later-nak-names-a-held-capability")
+				l.SendLine(":irc.sim CAP me NAK :" + nak)
+				ln, ok := nextLine()
+				e.Check()
+				if !ok || ln != "CAP END" {
+					fail("end-after-nak", "after a later NAK of %q want CAP END, got %q", clip(nak), ln)
+					return
 				}
 			}
 			simrt.Settle(20 * time.Second)
